@@ -22,7 +22,7 @@ Inductive lev :=
 | VDrop                          (* the idle sender is dropped *)
 | VAbort.                        (* the pending call is cancelled, dropping the sender *)
 
-Inductive lerr := RRemoteDetached | RRemoteClosed | RRemoteClosedWithError | RDetachedByRemote | RClosedByRemote | RExpectImmediateDetach.
+Inductive lerr := RRemoteDetached | RRemoteClosed | RRemoteClosedWithError | RDetachedByRemote | RClosedByRemote | RExpectImmediateDetach | RIllegalState.
 
 Inductive lobs2 :=
 | XTransfer | XDetach (closed : bool) | XAttach       (* written *)
@@ -48,9 +48,9 @@ Definition lkstep (s : lstate2) (e : lev) : lstate2 * list lobs2 :=
   (* ---- attached, idle ---- *)
   | LIdle None c, VPFlow => (LIdle None true, [])
   | LIdle None c, VPDetach k => (LIdle (Some k) c, [])
-  | LIdle rd true, VSend => (LSendWait rd, [XTransfer])                         (* credit in hand: the transfer goes out, whatever the peer has sent *)
+  | LIdle None true, VSend => (LSendWait None, [XTransfer])
   | LIdle None false, VSend => (LSendBlocked, [])
-  | LIdle (Some k) false, VSend => (LDetached (answer k), [XDetach (answer k); DSend (Some (send_err k))])
+  | LIdle (Some k) c, VSend => (LDetached (answer k), [XDetach (answer k); DSend (Some (send_err k))])   (* an unseen detach is looked at before the credit *)
   | LIdle None c, VDetach => (LDetSent, [XDetach false])
   | LIdle (Some KDetach) c, VDetach => (LGone, [XDetach false; DDetach None])
   | LIdle (Some _) c, VDetach => (LGone, [XDetach false; DDetach (Some RDetachedByRemote)])
@@ -67,7 +67,8 @@ Definition lkstep (s : lstate2) (e : lev) : lstate2 * list lobs2 :=
   | LSendBlocked, _ => (LSendBlocked, [])
   (* ---- send() waiting for the outcome: only the outcome wakes it ---- *)
   | LSendWait rd, VPAccept => (LIdle rd true, [DSend None])      (* the peer granted 10 credits: scripts stay below that *)
-  | LSendWait None, VPDetach k => (LSendWait (Some k), [])
+  | LSendWait None, VPDetach KDetach => (LSendWait (Some KDetach), [])       (* a non-closing detach: the outcome may still come after a resume *)
+  | LSendWait None, VPDetach k => (LIdle (Some k) true, [DSend (Some RIllegalState)])   (* a closing detach fails the pending outcome *)
   | LSendWait rd, VAbort => (LGone, [XDetach true])
   | LSendWait rd, _ => (LSendWait rd, [])
   (* ---- detach() / close() waiting ---- *)
